@@ -80,6 +80,14 @@ impl Elem for i32 {
 }
 impl Elem for Item {
     fn make(l: i32) -> Item {
+        // every eighth element comes from a family of PRINT TWINS (same kind, same printed text,
+        // different value): replacing one by another must really replace it
+        if l % 8 == 6 {
+            return Item::float(0.25 + ((l / 8) % 5) as f32 * 0.0001);
+        }
+        if l % 8 == 5 {
+            return Item::list(vec![Item::float(0.123 + ((l / 8) % 4) as f32 * 0.0001), Item::bool(true)]);
+        }
         match l % 4 {
             0 => Item::int(l),
             1 => Item::list(vec![Item::int(l), Item::bool(true)]),
